@@ -276,7 +276,7 @@ class VerusResult:
         self.cmd = ""
 
 
-def run_verus(path, rlimit=None, multiple_errors=40, log_air=True, extra=None, timeout=1800, seed=None):
+def run_verus(path, rlimit=None, multiple_errors=40, log_air=True, extra=None, timeout=900, seed=None):
     logdir = path + ".log"
     cmd = ["verus", "--edition", "2024", path, "--error-format=json", "--output-json", "--time-expanded",
            "--multiple-errors", str(multiple_errors), "--num-threads", "8"]
@@ -289,10 +289,22 @@ def run_verus(path, rlimit=None, multiple_errors=40, log_air=True, extra=None, t
     if extra:
         cmd += extra
     t0 = time.time()
+    import signal
+    proc = subprocess.Popen(cmd, stdout=subprocess.PIPE, stderr=subprocess.PIPE, text=True, cwd=os.path.dirname(path), start_new_session=True)
     try:
-        p = subprocess.run(cmd, capture_output=True, text=True, timeout=timeout, cwd=os.path.dirname(path))
+        so, se = proc.communicate(timeout=timeout)
     except subprocess.TimeoutExpired:
+        try:
+            os.killpg(proc.pid, signal.SIGKILL)
+        except Exception:
+            pass
+        proc.communicate()
         raise ToolTrouble(f"verus timed out after {timeout}s on {path}")
+
+    class _P:
+        pass
+    p = _P()
+    p.stdout, p.stderr, p.returncode = so, se, proc.returncode
     r = VerusResult()
     r.cmd = " ".join(cmd)
     r.wall_s = time.time() - t0
